@@ -666,6 +666,16 @@ class Check(PropertyCheck):
                 ins = [File(os.path.abspath(f"remote/in/i{i}")).stage(f"local_in{i}") for i in range(n_in)]
                 outs = {f"o{j}": File(os.path.abspath(f"remote/out/o{j}")).stage(f"local_out{j}") for j in range(n_out)}
                 lines[-1] = f"test ! -e {os.path.abspath('remote/out/o0')}"
+            same_name = tempdir and seed % 4 == 1
+            if same_name:
+                # the remote file lives in the directory the expression is built in and is staged under its own basename:
+                # inside the temp dir the relative local path is a different file, so the copies are needed (seeded
+                # change C29d: "no staging needed" decided by comparing absolute paths at build time)
+                for i, c in enumerate(contents):
+                    File(f"local_in{i}").write(c)
+                ins = [File(os.path.abspath(f"local_in{i}")).stage(f"local_in{i}") for i in range(n_in)]
+                outs = {f"o{j}": File(os.path.abspath(f"local_out{j}")).stage(f"local_out{j}") for j in range(n_out)}
+                lines[-1] = f"test ! -e {os.path.abspath('local_out0')}"
             nested_in = [ins[0], tuple(ins[1:])] if seed % 3 else ins
             outputs = {"files": outs, "stdout": File("-"), "n": [1, (2,)]}
             expr = script("\n".join("    " + l for l in lines), inputs=nested_in, outputs=outputs, tempdir=tempdir)
@@ -682,7 +692,7 @@ class Check(PropertyCheck):
                 return f"the stdout file was replaced by {res['stdout']!r}, expected the command's output"
             for j in range(n_out):
                 f = res["files"].get(f"o{j}")
-                if type(f) is not File or os.path.abspath(f.path) != os.path.abspath(f"remote/out/o{j}"):
+                if type(f) is not File or os.path.abspath(f.path) != os.path.abspath(f"local_out{j}" if same_name else f"remote/out/o{j}"):
                     return f"output o{j} was returned as {f!r}, expected the remote file"
                 if not os.path.exists(f.path) or open(f.path).read() != "".join(contents) + f"tag{j}":
                     return f"remote output o{j} does not hold what the command wrote"
@@ -755,7 +765,8 @@ class Check(PropertyCheck):
         mark("oracle_structures")
         ne2e = 0
         for k in range(self.n(5, 60)):
-            seed = self.rng.randrange(10 ** 6)
+            # the first runs cover each layout once: plain, temp dir, temp dir with same-basename staging
+            seed = (2, 3, 5)[k] + 4 * self.rng.randrange(10 ** 5) if k < 3 else self.rng.randrange(10 ** 6)
             why = self.check_e2e(seed)
             ne2e += 1
             if why:
